@@ -732,6 +732,13 @@ def oracle_c17(run, A, V):
                 V("library-eos-unexpected", "SUB %s with snapshot outcome %s: library emitted an EOS" % (rid, snap["out"]))
         if snap["out"] == "raise" and sub is not None:
             V("subscribe-after-failed-snapshot-query", "SUB %s: availability query raised but subscribe was called" % rid)
+        if snap["out"] == "raise" and run.status == "quiescent":
+            # "... the subscription is answered with that error"
+            wire = [strip_ts(l) for l in "".join(A.sent).split("\r\n")]
+            reps = [l for l in wire if l.startswith("%s|SUB|" % rid)]
+            if len(reps) != 1 or not reps[0].startswith("%s|SUB|E" % rid) or "snapshot+query+failed" not in reps[0]:
+                V("failed-snapshot-query-not-answered", "SUB %s: the availability query raised, the replies on the wire are %r (expected one error reply "
+                  "carrying the query's error)" % (rid, reps))
     # wire order: library EOS before the reply and before events submitted from within/after subscribe
     lines = [strip_ts(l) for l in "".join(A.sent).split("\r\n")]
     for t, tid, (item, rid) in lib_eos:
